@@ -665,6 +665,10 @@ func c36script(t *rapid.T, rec *ev.Rec, l *lang) {
 	pool = append(pool, mk(isRec))
 	// initial contents
 	n0 := gen.Uniform(t, "n0", 6)
+	if gen.Chance(t, "longlist", 20) {
+		// sort.Slice and friends switch algorithm above 12 elements
+		n0 = 13 + gen.Uniform(t, "n0long", 12)
+	}
 	for i := 0; i < n0; i++ {
 		v := drawVal(t)
 		pool[0].c.add(v)
@@ -1125,6 +1129,7 @@ func c36script(t *rapid.T, rec *ev.Rec, l *lang) {
 	rec.LabelIf(st.ties > 0, "script_with_sort_ties")
 	rec.LabelIf(st.roRejected > 0, "script_with_readonly_rejection")
 	rec.LabelIf(isRec, "script_on_record")
+	rec.LabelIf(n0 > 12, "script_starting_with_long_list")
 	rec.LabelIf(len(pool) > 1, "script_with_copies_or_slices")
 	cls := "plain"
 	switch {
